@@ -48,7 +48,11 @@ def program_for(sc):
             if li == 0:
                 # identical actions are identical whatever the order their arguments are written in
                 a1, a2 = 'script="%s"' % f["action"], "intensity=1.0"
-                lines.append("  start UtteranceBotAction(%s)" % (", ".join([a2, a1]) if f.get("args_swapped") else ", ".join([a1, a2])))
+                if f.get("send"):
+                    # a raw event is an action of the flow as much as an action start is: it competes with both kinds
+                    lines.append("  send CustomEv(%s)" % (", ".join([a2, a1]) if f.get("args_swapped") else ", ".join([a1, a2])))
+                else:
+                    lines.append("  start UtteranceBotAction(%s)" % (", ".join([a2, a1]) if f.get("args_swapped") else ", ".join([a1, a2])))
                 lines.append("  match Hold()")
             lines.append("")
     return "\n".join(lines)
@@ -79,7 +83,7 @@ class C05(InterpProp):
     rule = ("one scenario = 2-6 flows waiting for the same event with 1-4 parameters; each flow mentions a subset of the parameters (specificity), optionally a priority in {0.9, 0.5, 0.1}, sits in the parent loop, "
             "loop A, loop B or a NEW loop, starts a distinct or a shared action; some flows mention a wrong value (must stay untouched). It is executed once per forced tie-break pick (0..n-1, n = size of the largest group). "
             "evaluations = executions; non-trivial = competitions with >= 2 matching flows in one loop and different actions; distinct = distinct (specificity/priority/loop/action vector, pick)")
-    expected_probes = ["two_live_instances_of_a_new_loop_flow", "chains_of_different_length", "tie_set_of_2plus", "every_tie_member_won", "shared_action_co_winners", "independent_loops", "non_matching_flow_untouched", "priority_decided"]
+    expected_probes = ["raw_event_competes_with_action_start", "two_live_instances_of_a_new_loop_flow", "chains_of_different_length", "tie_set_of_2plus", "every_tie_member_won", "shared_action_co_winners", "independent_loops", "non_matching_flow_untouched", "priority_decided"]
     exhaustive_parts = ["every outcome of the tie-break (pick 0..n-1) for every generated competition"]
     quick_runs = 4000
     thorough_runs = 400000
@@ -100,8 +104,9 @@ class C05(InterpProp):
             shared = d.chance(0.3, "shared", k)
             depth = d.weighted([(1, 5), (2, 3), (3, 2)], "depth", k)
             levels = [d.choice(PRIORITIES, "prio", k)] + [d.choice(PRIORITIES, "lprio", k, li) for li in range(1, depth)]
+            send = d.chance(0.25, "send", k)
             flows.append({"mentions": mentions, "priority": levels[0], "levels": levels, "loop": d.choice(LOOPS, "loop", k),
-                          "action": "shared" if shared else "a%d" % k, "matches": not wrong,
+                          "action": ("sshared" if shared else "s%d" % k) if send else ("shared" if shared else "a%d" % k), "send": send, "matches": not wrong,
                           "regex": [i for i in sorted(mentions) if d.chance(0.2, "rx", k, i)], "args_swapped": d.chance(0.4, "swap", k)})
         return {"m": m, "actual": actual, "flows": flows, "trackers": d.weighted([(0, 5), (1, 3), (2, 2)], "trackers")}
 
@@ -125,7 +130,7 @@ class C05(InterpProp):
                 ev["p%s" % i] = v
             out = itp.deliver(ev)
             after = {f.flow_id: (f.status.name, tuple(sorted(h.position for h in f.heads.values()))) for f in itp.state.flow_states.values()}
-            starts = [(o.get("script"), o.get("action_uid")) for o in out if o["type"] == "StartUtteranceBotAction"]
+            starts = [(o.get("script"), o.get("action_uid")) for o in out if o["type"] in ("StartUtteranceBotAction", "CustomEv")]
             bad = I.check_quiescence(itp.state)
             self._second = None
             if sc.get("trackers"):
@@ -206,6 +211,8 @@ class C05(InterpProp):
                     out.violate("action-start-count", "%d-starts" % n_start, "%s: action %r was started %d times" % (desc, win_action, n_start))
                 if len(expected_proceed) >= 2:
                     out.probe("shared_action_co_winners")
+                if len(set(bool(flows[k].get("send")) for k in members)) == 2:
+                    out.probe("raw_event_competes_with_action_start")
                 for k in proceeded:
                     if k in T:
                         winners_seen[key].add(k)
